@@ -395,6 +395,39 @@ def opDecfile (f : Fields) (profile : Profile) : String :=
           | none => s!"ok {metaStr} {payload}"
           | some e => s!"{failStr e} {metaStr} {payload}"
 
+/-- L0 verdict on a whole (possibly damaged) file: accepted iff every frame up to the declared
+    total (or to the end of the data when the total is unknown) is accepted by the strict decoder,
+    no frame overshoots the total, and only the last frame is shorter than 16 samples -/
+def specFileDecode (bytes : List Nat) : Option (List Int) :=
+  match parseFileHead bytes with
+  | .error _ => none
+  | .ok h =>
+    let si := sinfoOf h.si
+    let rec walk (fuel : Nat) (rest : List Nat) (cur : Nat) (acc : List (List (List Int))) (lastLen : Nat) : Option (List (List (List Int))) :=
+      match fuel with
+      | 0 => none
+      | fuel+1 =>
+        if h.si.total != 0 && cur == h.si.total then some acc.reverse
+        else if rest.isEmpty then (if h.si.total == 0 then some acc.reverse else none)
+        else if lastLen != 0 && lastLen < 16 then none        -- a short block that was not the last
+        else
+          match Spec.specDecode (some si) rest with
+          | .error _ => none
+          | .ok d =>
+            if h.si.total != 0 && cur + d.frame.hdr.blockSize > h.si.total then none
+            else walk fuel (rest.drop d.used) (cur + d.frame.hdr.blockSize) (d.channels :: acc) d.frame.hdr.blockSize
+    (walk (bytes.length + 2) (bytes.drop h.framesStart) 0 [] 0).map fun frames => frames.flatMap interleave
+
+def specSlotDecfile (f : Fields) (impl : Fields) (implHead : String) : String :=
+  if f.get "kind" != "mut" || implHead != "ok" || (f.get "mut").startsWith "flipfix" then "-" else
+  match hexToBytes (f.get "bytes") with
+  | none => "-"
+  | some bytes =>
+    let implPcm := parseInts (impl.get "pcm")
+    match specFileDecode bytes with
+    | none => "FAIL silently-decoded-damaged-stream the implementation decoded a stream the strict RFC decoder rejects"
+    | some pcm => if pcm == implPcm then "ok" else "FAIL damaged-stream-decoded-differently"
+
 def runCase (line : String) : String :=
   let parts := line.splitOn "\t"
   let caseLine := parts.headD ""
@@ -406,7 +439,7 @@ def runCase (line : String) : String :=
   | "streamrw" => opStreamrw f impl implHead profile ++ " @@ -"
   | "encframe" => opEncframe f impl implHead profile
   | "hist" => opHist f ++ " @@ -"
-  | "decfile" => opDecfile f profile ++ " @@ -"
+  | "decfile" => opDecfile f profile ++ " @@ " ++ specSlotDecfile f impl implHead
   | "wr" =>
     if implHead != "ok" || impl.get "file" == "" then "model-skip @@ -" else
     let spec := match hexToBytes (impl.get "file") with
@@ -459,7 +492,52 @@ def genValidCases (seed n : Nat) : List String := Id.run do
       let body := framesK.flatMap fun m => Spec.serialize m.frame
       let reader := ["byte", "sample", "iter", "chan", "verify"].getD (i / 3 % 5) "sample"
       let verdict := if noMd5 then "NoMD5" else if wrongMd5 then "MD5Mismatch" else "MD5Match"
-      out := s!"decfile reader={reader} endian={if i % 2 == 0 then "le" else "be"} chunk={[1, 7, 4096].getD (i % 3) 64} bytes={bytesToHex (head ++ body)} bps={si.bps} exp={joinInts pcm} expverify={verdict} kind=valid" :: out
+      let lensStr := ",".intercalate (framesK.map fun m => toString m.frame.hdr.blockSize)
+      out := s!"decfile reader={reader} endian={if i % 2 == 0 then "le" else "be"} chunk={[1, 7, 4096].getD (i % 3) 64} bytes={bytesToHex (head ++ body)} bps={si.bps} ch={si.channels} headlen=42 lens={lensStr} exp={joinInts pcm} expverify={verdict} kind=valid" :: out
+  return out.reverse
+
+open Flac.Gen2 in
+def genInvalidCases (seed n : Nat) : List String := Id.run do
+  let mut rng : Rng := ⟨UInt64.ofNat (seed * 40503 + 777)⟩
+  let mut out : List String := []
+  for i in [0:n] do
+    let asFile := i % 2 == 1
+    let si : SInfo := { rate := 44100, channels := 2, bps := 16, maxBlock := 65535 }
+    if !asFile then
+      let mut got : Option (Frame × String × Bool) := none
+      for _ in [0:8] do
+        if got.isNone then
+          let ((fr, cls, must), r) := (do let m ← genFrame true si false; mutateFrame m : G _).run rng
+          rng := r
+          if fr.hdr.blockSize * fr.subs.length ≤ 400 then got := some (fr, cls, must)
+      match got with
+      | none => pure ()
+      | some (fr, cls, must) =>
+        out := s!"streamread bytes={bytesToHex (Spec.serialize fr)} class={cls} expect={if must then "reject" else "any"} kind=invalid" :: out
+    else
+      let mut got2 : Option (SInfo × Frame × String × Bool) := none
+      for _ in [0:8] do
+        if got2.isNone then
+          let ((si2, fr, cls, must), r) := (do
+            let bps ← (do let t ← chance 1 2; if t then pick [8, 16, 24, 32] else do let b ← below 29; pure (b + 4))
+            let ch ← (do let st ← chance 1 2; if st then pure 2 else do let c ← below 8; pure (c + 1))
+            let si2 : SInfo := { rate := 48000, channels := ch, bps, maxBlock := 4096 }
+            let m ← genFrame false si2 true
+            let (fr, cls, must) ← mutateFrame m
+            pure (si2, fr, cls, must) : G _).run rng
+          rng := r
+          if fr.hdr.blockSize * fr.subs.length ≤ 400 then got2 := some (si2, fr, cls, must)
+      let some (si2, fr, cls, must) := got2 | continue
+      let known := i % 4 == 1
+      -- every eighth file declares FEWER samples than its (otherwise untouched) frames hold
+      let overshoot := i % 16 == 3
+      let twice := i % 32 == 3
+      let total := if overshoot then (fr.hdr.blockSize * (if twice then 2 else 1)) - 1 - (i / 16 % 5) else if known then fr.hdr.blockSize else 0
+      let head := fileHead si2 total (List.replicate 16 0) 16
+      let reader := ["sample", "byte", "chan", "iter"].getD (i / 2 % 4) "sample"
+      let body := if twice then Spec.serialize fr ++ Spec.serialize fr else Spec.serialize fr
+      let (cls', must') := if overshoot && cls == "unchanged" || overshoot && !must && fr.hdr.blockSize > 14 then ("frame-overshoots-total", cls == "unchanged") else (cls, must)
+      out := s!"decfile reader={reader} endian=le chunk=4096 bytes={bytesToHex (head ++ body)} class={cls'} expect={if must' then "reject" else "any"} kind=invalid" :: out
   return out.reverse
 
 partial def loop (h : IO.FS.Stream) (out : IO.FS.Stream) : IO Unit := do
@@ -473,6 +551,9 @@ def main (args : List String) : IO Unit := do
   match args with
   | ["gen", "valid", seed, n] =>
     for l in genValidCases (seed.toNat?.getD 1) (n.toNat?.getD 10) do
+      IO.println l
+  | ["gen", "invalid", seed, n] =>
+    for l in genInvalidCases (seed.toNat?.getD 1) (n.toNat?.getD 10) do
       IO.println l
   | _ =>
     let i ← IO.getStdin
